@@ -480,10 +480,95 @@ pub fn gen_grammar(rng: &mut Rng, cfg: &GenCfg) -> Grammar {
             body,
         });
     }
-    Grammar {
+    let mut g = Grammar {
         rules,
         whitespace,
         comment,
+    };
+    repair_for_validator(&mut g);
+    g
+}
+
+// ---------------------------------------------------------------------------------------------
+// keep the real validator's rejection rate low: it refuses (a) a choice alternative that cannot
+// fail unless it is the last one, (b) a repetition of something that cannot fail, (c) a
+// repetition of something that can succeed without consuming. These approximations of its
+// analysis are only used to *steer* generation; the real front-end still has the last word.
+// ---------------------------------------------------------------------------------------------
+
+fn non_failing(e: &Ex, g: &[RuleDef], me: usize) -> bool {
+    match e {
+        Ex::Str(s) | Ex::Insens(s) => s.is_empty(),
+        Ex::Opt(_) | Ex::Star(_) | Ex::RepMax(..) => true,
+        Ex::RepMinMax(x, n, _) | Ex::RepMin(x, n) => *n == 0 || non_failing(x, g, me),
+        Ex::RepExact(x, _) | Ex::Plus(x) | Ex::PosPred(x) => non_failing(x, g, me),
+        Ex::Seq(xs) => xs.iter().all(|x| non_failing(x, g, me)),
+        Ex::Choice(xs) => xs.iter().any(|x| non_failing(x, g, me)),
+        Ex::Ref(j) => *j != me && *j < g.len() && non_failing(&g[*j].body, g, *j),
+        _ => false,
+    }
+}
+
+fn non_progressing(e: &Ex, g: &[RuleDef], me: usize) -> bool {
+    match e {
+        Ex::Str(s) | Ex::Insens(s) => s.is_empty(),
+        Ex::Opt(_) | Ex::Star(_) | Ex::RepMax(..) | Ex::PosPred(_) | Ex::NegPred(_) => true,
+        Ex::Builtin(b) => matches!(*b, "SOI" | "EOI"),
+        Ex::RepMinMax(x, n, _) | Ex::RepMin(x, n) => *n == 0 || non_progressing(x, g, me),
+        Ex::RepExact(x, _) | Ex::Plus(x) => non_progressing(x, g, me),
+        Ex::Seq(xs) => xs.iter().all(|x| non_progressing(x, g, me)),
+        Ex::Choice(xs) => xs.iter().any(|x| non_progressing(x, g, me)),
+        Ex::Ref(j) => *j != me && *j < g.len() && non_progressing(&g[*j].body, g, *j),
+        _ => false,
+    }
+}
+
+fn fix(e: &mut Ex, g: &[RuleDef], me: usize) {
+    // children first
+    match e {
+        Ex::Seq(xs) | Ex::Choice(xs) => xs.iter_mut().for_each(|x| fix(x, g, me)),
+        Ex::Opt(x)
+        | Ex::Star(x)
+        | Ex::Plus(x)
+        | Ex::RepExact(x, _)
+        | Ex::RepMinMax(x, _, _)
+        | Ex::RepMin(x, _)
+        | Ex::RepMax(x, _)
+        | Ex::PosPred(x)
+        | Ex::NegPred(x) => fix(x, g, me),
+        Ex::StackBlock(_, mid, _) => mid.iter_mut().for_each(|x| fix(x, g, me)),
+        _ => {}
+    }
+    let guard = |x: &Ex| Ex::Seq(vec![x.clone(), Ex::Str("a".into())]);
+    match e {
+        Ex::Choice(xs) => {
+            let n = xs.len();
+            for x in xs.iter_mut().take(n - 1) {
+                if non_failing(x, g, me) {
+                    *x = guard(x);
+                }
+            }
+        }
+        Ex::Star(x)
+        | Ex::Plus(x)
+        | Ex::RepExact(x, _)
+        | Ex::RepMinMax(x, _, _)
+        | Ex::RepMin(x, _)
+        | Ex::RepMax(x, _) => {
+            if non_failing(x, g, me) || non_progressing(x, g, me) {
+                **x = guard(x);
+            }
+        }
+        _ => {}
+    }
+}
+
+fn repair_for_validator(g: &mut Grammar) {
+    // later rules first: a rule only references later rules (and itself, guarded)
+    for i in (0..g.rules.len()).rev() {
+        let mut body = g.rules[i].body.clone();
+        fix(&mut body, &g.rules, i);
+        g.rules[i].body = body;
     }
 }
 
